@@ -29,7 +29,8 @@ def build(spec):
     d1 = spec['dim'] == 1
     Conv = nn.Conv1d if d1 else nn.Conv2d
     Pool = nn.AdaptiveAvgPool1d if d1 else nn.AdaptiveAvgPool2d
-    res = spec['residual']
+    topo = spec.get('topo') or ('residual' if spec['residual'] else 'seq')
+    res = topo == 'residual'
     w = spec['width']
 
     class N(nn.Module):
@@ -37,10 +38,13 @@ def build(spec):
             super().__init__()
             s.c = Conv(3, w, 3, padding=1)
             s.r = nn.ReLU()
-            s.c2 = Conv(w, w if res else w + 1, 3, padding=1)
+            if topo == 'dw':
+                s.c2 = Conv(w, w, 3, padding=1, groups=w)          # depthwise after its producer: same activation-quantizer group
+            else:
+                s.c2 = Conv(w, w if res else w + 1, 3, padding=1)
             s.p = Pool(1)
             s.f = nn.Flatten()
-            s.l = nn.Linear(w if res else w + 1, 3)
+            s.l = nn.Linear(w if (res or topo == 'dw') else w + 1, 3)
 
         def forward(s, x):
             a = s.r(s.c(x))
@@ -50,7 +54,8 @@ def build(spec):
     T, h, g, d = spec['ctor']
     torch.manual_seed(spec['seed'])
     p = MPS(N(), input_shape=shape, w_search_type=MPSType.PER_CHANNEL if spec['per_channel'] else MPSType.PER_LAYER,
-            qinfo=get_default_qinfo(tuple(spec['wprec']), tuple(spec['aprec'])), temperature=T, hard_softmax=h, gumbel_softmax=g, disable_sampling=d)
+            qinfo=get_default_qinfo(tuple(spec['wprec']), tuple(spec['aprec'])), temperature=T, hard_softmax=h, gumbel_softmax=g, disable_sampling=d,
+            disable_shared_quantizers=bool(spec.get('dsq', False)))
     x = torch.rand((2,) + shape)
     return p, x
 
@@ -74,6 +79,10 @@ def selection_check(p, step):
         from plinio.methods.mps.nn.qtz import MPSPerChannelQtz
         kinds = sorted({('conv1d' if isinstance(l, MPSConv1d) else 'conv2d') + ('-per-channel' if isinstance(l.w_mps_quantizer, MPSPerChannelQtz) else '-per-layer')
                         for l in p.seed.modules() if isinstance(l, (MPSConv1d, MPSConv2d))})
+        dw = any(isinstance(l, (MPSConv1d, MPSConv2d)) and l.groups > 1 and l.groups == l.in_channels and isinstance(l.w_mps_quantizer, MPSPerChannelQtz)
+                 for l in p.seed.modules())
+        if dw and 'divisible by groups' in str(ex):
+            kinds = ['depthwise-per-channel']
         return [('mps:export-raised:' + '+'.join(kinds), 'export() raised EXC:%s %s' % (type(ex).__name__, ' | '.join(traceback.format_exc().strip().splitlines()[-3:])[:300]), step)], []
     for lname, layer in p.seed.named_modules():
         if not isinstance(layer, MPSModule):
@@ -197,6 +206,7 @@ def exec_net(spec):
             res['sel'][n_] = {'init': dict(st, gumbel=req[qid]['gumbel'] or st['name'] == 'sample_alpha_gs', disabled=st['name'] == 'sample_alpha_none' or (keep and req[qid]['disabled'])),
                               'mops': [], 'steps': [], 'tab': [], 'margins': [], 'P': m.alpha.shape[0]}
         order = []
+        originals = None
         hooks = [m.register_forward_pre_hook(lambda mod, inp, k=qid: order.append(k)) for qid, (n_, m) in qs.items()]
         for i, op in enumerate(spec['ops']):
             before = {qid: obs(m) for qid, (n_, m) in qs.items()}
@@ -229,6 +239,37 @@ def exec_net(spec):
                     if all(base.is_prob(c) for c in before[qid]['theta']) and not all(base.is_prob(c) for c in st['theta']):
                         res['fails'].append(('mps:theta-not-a-probability-vector:after-compensate_weights_values', '%s: theta_alpha was %r, after compensate_weights_values() it is %r' % (
                             n_, [[float(v) for v in c] for c in before[qid]['theta']], [[float(v) for v in c] for c in st['theta']]), i))
+                continue
+            elif op[0] == 'snap':
+                # snapshot = copy.deepcopy(model); every later op acts on the COPY, the original must stay as it is.  For the
+                # sampler model nothing happens (the copy is in the state of the original)
+                import copy
+                for h_ in hooks:
+                    h_.remove()
+                try:
+                    cp = copy.deepcopy(p)
+                except RuntimeError as ex:
+                    if 'deepcopy protocol' in str(ex):      # PyTorch: a theta_alpha with a grad_fn cannot be deep-copied
+                        res['cut'] = i
+                        break
+                    raise
+                originals = (p, {n_: (m, obs(m)) for qid, (n_, m) in qs.items()})
+                old_names = {qid: n_ for qid, (n_, m) in qs.items()}
+                p = cp
+                qs = {}
+                for n_, m in p.seed.named_modules():
+                    if isinstance(m, MPSBaseQtz):
+                        qs.setdefault(id(m), (n_, m))
+                name2new = {n_: qid for qid, (n_, m) in qs.items()}
+                if sorted(name2new) != sorted(old_names.values()):
+                    res['fails'].append(('mps:snapshot:copy-has-different-selectors', 'selectors of the copy %r, of the original %r' % (sorted(name2new), sorted(old_names.values())), i))
+                    break
+                req = {name2new[old_names[qid]]: r_ for qid, r_ in req.items()}
+                layers = {n_: m for n_, m in p.seed.named_modules() if isinstance(m, MPSModule)}
+                hooks = [m.register_forward_pre_hook(lambda mod, inp, k=qid: order.append(k)) for qid, (n_, m) in qs.items()]
+                for qid, (n_, m) in qs.items():
+                    if obs(m) != before[[k for k, v in old_names.items() if v == n_][0]]:
+                        res['fails'].append(('mps:snapshot:copy-differs-from-the-original', '%s: the deep copy holds %r' % (n_, {k: v for k, v in obs(m).items() if k in ('name', 'hard', 'training')}), i))
                 continue
             elif op[0] == 'train':
                 p.train()
@@ -305,6 +346,13 @@ def exec_net(spec):
                 rec['steps'].append(st)
         for h_ in hooks:
             h_.remove()
+        if originals is not None:
+            for n_, (m, st0) in originals[1].items():
+                st = obs(m)
+                if st != st0:
+                    diff = [k for k in st if st[k] != st0[k]]
+                    res['fails'].append(('mps:snapshot:ops-on-the-copy-changed-the-original', '%s of the ORIGINAL model changed (%s) while only its deep copy was used: theta_alpha %r -> %r' % (
+                        n_, ', '.join(diff), [[float(v) for v in c] for c in st0['theta']], [[float(v) for v in c] for c in st['theta']]), len(spec['ops'])))
         if res['cut'] is None:
             # what summary() reports and export() materialises at the end of the sequence, whatever the options in force
             # (also with sampling disabled and coefficients frozen before the last alpha update / drawn with Gumbel noise)
@@ -536,6 +584,42 @@ def specs_net(ctx, keep):
                     out[-1]['per_channel'] = pc
                     out[-1]['wprec'] = [0] + rng.sample([2, 4, 8], rng.randint(2, 3))
                     rng.shuffle(out[-1]['wprec'])
+    # one WEIGHT quantizer per layer (disable_shared_quantizers=True) in topologies where two weight layers share an activation
+    # quantizer (conv1(a) + conv2(a); depthwise after its producer): non-default options through MPS(...) and through every path
+    for topo in ('residual', 'dw'):
+        for dim in (1, 2):
+            for pc in (False, True):
+                for kw in ((True, False, False), (False, True, False), (True, True, False), (False, False, False)):
+                    for rep in range(1 if ctx.quick else 3):
+                        T = rng.choice([t for t in base.TEMPS if t != 1.0])
+                        path = rng.choice(paths)
+                        ops = [('train',), fwd(), upd(path, t=rng.choice(base.TEMPS), h=not kw[0]), fwd(), upd('model', g=not kw[1]), opt(), fwd(), ('eval',), fwd()]
+                        mk((T,) + kw, ops, dim=dim)
+                        out[-1].update(per_channel=pc, topo=topo, residual=topo == 'residual', dsq=True)
+    # deep-copied snapshots: copy.deepcopy(model) after construction or after a no_grad pass, then alpha / mode / options change on the
+    # COPY and it is evaluated; the copy must follow ITS coefficients, the original must stay untouched
+    for dim in (1, 2):
+        for pc in (False, True):
+            for variant in range(6 if ctx.quick else 12):
+                T = rng.choice(base.TEMPS)
+                nog = ('fwd', rng.randrange(1 << 30), 'no_grad')
+                v = variant % 6
+                if v == 0:
+                    ops = [('snap',), ('eval',), fwd(), opt(), fwd()]
+                elif v == 1:
+                    ops = [('eval',), nog, ('snap',), opt(), fwd(), fwd()]
+                elif v == 2:
+                    ops = [('train',), nog, ('snap',), ('eval',), opt(), fwd()]
+                elif v == 3:
+                    ops = [('eval',), nog, ('snap',), ('train',), opt(), fwd(), ('eval',), fwd()]
+                elif v == 4:
+                    ops = [nog, ('snap',), upd('model', h=True, t=rng.choice(base.TEMPS)), opt(), fwd(), upd(rng.choice(paths), g=True), fwd()]
+                else:
+                    ops = [('snap',), opt(), ('comp',), fwd(), ('snap',), ('eval',), opt(), nog, fwd()]
+                mk((T, rng.random() < 0.4, rng.random() < 0.4, False), ops, dim=dim)
+                out[-1]['per_channel'] = pc
+                if rng.random() < 0.3:
+                    out[-1].update(topo=rng.choice(['residual', 'dw']), dsq=rng.random() < 0.5)
     for _ in range(20 if ctx.quick else 200):
         ops = []
         for _ in range(rng.randint(4, 10)):
